@@ -26,6 +26,12 @@ if "/repo" not in sys.path:
 
 from pyvc import core, proxies, unit as U  # noqa: E402
 
+# Where evidence/ and replays/ are written.  Default: /verif itself (what MANIFEST names).  The
+# machinery's own self-tests (tools_seed.sh / tools_mutate.sh run the check on a deliberately broken
+# /repo) set PYVC_OUT to a scratch directory, so that a record of a broken tree can never be left
+# behind - or committed - as the evidence of the unchanged tree.
+OUT = os.environ.get("PYVC_OUT") or ROOT
+
 
 def load_contract(prop):
     files = sorted(glob.glob(os.path.join(ROOT, "contracts", prop.lower() + "_*.py")))
@@ -379,8 +385,8 @@ def check_property(prop, tier, seed, jobs=None):
                             "tb": traceback.format_exc()[-2000:]})
 
     # ---- verdicts
-    os.makedirs(os.path.join(ROOT, "replays", prop), exist_ok=True)
-    for f in glob.glob(os.path.join(ROOT, "replays", prop, "*.json")):
+    os.makedirs(os.path.join(OUT, "replays", prop), exist_ok=True)
+    for f in glob.glob(os.path.join(OUT, "replays", prop, "*.json")):
         os.remove(f)
     violations, known_lines, spurious = [], [], []
     demos = getattr(mod, "KNOWN_DEMOS", {})
@@ -404,14 +410,14 @@ def check_property(prop, tier, seed, jobs=None):
         json.dump({"property": prop, "obligation": name, "unit": uname, "kind": o["kind"],
                    "replay": rp, "model": o.get("model"), "goal": o.get("goal"),
                    "solver": o.get("backend"), "no_failing_input_found": not confirmed},
-                  open(os.path.join(ROOT, path), "w"), indent=1)
+                  open(os.path.join(OUT, path), "w"), indent=1)
         violations.append((name, path, confirmed))
     for f in standin.get("failures", [])[:2]:
         fid = f.get("known")
         if fid and fid in known_ids:
             continue
         path = os.path.join("replays", prop, "standin_%d.json" % len(violations))
-        json.dump({"property": prop, "standin_failure": f}, open(os.path.join(ROOT, path), "w"), indent=1, default=str)
+        json.dump({"property": prop, "standin_failure": f}, open(os.path.join(OUT, path), "w"), indent=1, default=str)
         violations.append(("standin:" + str(f.get("what", ""))[:80], path, True))
     for k in kf:
         if k.get("status") == "known":
@@ -485,8 +491,12 @@ def check_property(prop, tier, seed, jobs=None):
             "A-SMT: z3 5.1 / cvc5 1.4 unsat answers are correct"])),
         "wall_s": wall, "violations": len(violations),
     }
-    os.makedirs(os.path.join(ROOT, "evidence"), exist_ok=True)
-    json.dump(ev, open(os.path.join(ROOT, "evidence", prop + ".json"), "w"), indent=1, default=str)
+    os.makedirs(os.path.join(OUT, "evidence"), exist_ok=True)
+    ev_path = os.path.join(OUT, "evidence", prop + ".json")
+    with open(ev_path + ".tmp", "w") as fh:
+        json.dump(ev, fh, indent=1, default=str)
+    os.replace(ev_path + ".tmp", ev_path)
+    ev_problems = evidence_self_check(ev_path, prop, bool(violations or undecided or crashes or vacuous or missing_locked))
 
     # ---- report
     print("%s tier=%s units=%d paths=%d obligations=%d discharged=%d (+bounded-symbolic %d/%d) undecided=%d refuted=%d standin_evals=%d wall=%.1fs level=%s" % (
@@ -507,11 +517,13 @@ def check_property(prop, tier, seed, jobs=None):
         errs = r["cross"].get("errors") or []
         if errs:
             print("  cross-check harness errors in %s (%d): %s" % (r["unit"], len(errs), errs[0][:200]))
+    for x in ev_problems:
+        print("  evidence-self-check: %s" % x)
     for l in known_lines:
         print(l)
     for name, path, confirmed in violations:
         print("VIOLATION property=%s replay=%s obligation=%s%s" % (
-            prop, path, name, "" if confirmed else " no-failing-input-found"))
+            prop, _shown(path), name, "" if confirmed else " no-failing-input-found"))
     if os.environ.get("PYVC_WRITE_LOCK") and not violations:
         lock[prop] = sorted(discharged_names)
         json.dump(lock, open(lock_path, "w"), indent=0, sort_keys=True)
@@ -531,12 +543,41 @@ def check_property(prop, tier, seed, jobs=None):
             fid = None
             path = os.path.join("replays", prop, "cross_%s.json" % re.sub(r"\W+", "_", uname))
             json.dump({"property": prop, "unit": uname, "cross_check_failure": f},
-                      open(os.path.join(ROOT, path), "w"), indent=1, default=str)
+                      open(os.path.join(OUT, path), "w"), indent=1, default=str)
             print("VIOLATION property=%s replay=%s obligation=%s (run-time contract failure on a concrete pre-state)" % (
-                prop, path, f["clauses"][0]))
+                prop, _shown(path), f["clauses"][0]))
             rc = 1
         return rc
     return 0
+
+
+def _shown(path):
+    return path if OUT == ROOT else os.path.join(OUT, path)
+
+
+def evidence_self_check(path, prop, run_was_degraded):
+    """Re-read the record just written and check it the way a consumer would: schema-valid, and - when
+    the run was clean - at the level MANIFEST claims, with discharged == obligations at proof level.
+    Returns a list of problems (printed; they never change the verdict)."""
+    out = []
+    try:
+        ev = json.load(open(path))
+        sp = os.path.join(ROOT, "pyvc", "EVIDENCE.schema.json")
+        if os.path.exists(sp):
+            import jsonschema
+            for e in jsonschema.Draft202012Validator(json.load(open(sp))).iter_errors(ev):
+                out.append("schema: %s at /%s" % (e.message[:160], "/".join(map(str, e.path))))
+        man = json.load(open(os.path.join(ROOT, "MANIFEST.json")))
+        claimed = [c["level_claimed"]["category"] for c in man["checks"] if c["property_id"] == prop]
+        if claimed and not run_was_degraded:
+            cov = ev["coverage"]
+            if ev["level"] != claimed[0]:
+                out.append("level %r differs from MANIFEST level_claimed.category %r on a clean run" % (ev["level"], claimed[0]))
+            if claimed[0] == "proof" and cov["discharged"] != cov["obligations"]:
+                out.append("proof level but discharged %d != obligations %d" % (cov["discharged"], cov["obligations"]))
+    except Exception as e:
+        out.append("could not re-read the evidence record: %s: %s" % (type(e).__name__, e))
+    return out
 
 
 def scan_assumptions(cfile):
